@@ -148,7 +148,8 @@ def real_tuples(doc):
         elif e["k"] == "rect":
             out.append(("rect", u[0], u[1], u[2], u[3], u[4], br))
         elif e["k"] == "path":
-            out.append(("path", u[0], u[1], u[2], e["fl"][2] if len(e["fl"]) == 3 else -1, u[4], u[5]))
+            out.append(("path", u[0], u[1], u[2], e["fl"][2] if len(e["fl"]) == 3 else -1, u[4], u[5],
+                        e["fl"][1] if len(e["fl"]) == 3 else -1))
         elif e["k"] == "text":
             out.append(("text", u[0], u[1], tuple(e["s"])))
         else:
